@@ -397,7 +397,10 @@ func (store *HStore) Set(ki *KeyInfo, p *Payload) error {
 }
 
 func (store *HStore) GetRecordByKeyHash(ki *KeyInfo) (*Record, bool, error) {
-	ki.Prepare()
+	if err := ki.Prepare(); err != nil || ki.BucketID < 0 {
+		// a path that does not parse, or is shorter than the bucket prefix, names no bucket
+		return nil, false, err
+	}
 	bkt := store.buckets[ki.BucketID]
 	if bkt.State != BUCKET_STAT_READY {
 		return nil, false, nil
